@@ -11,7 +11,13 @@ import itertools
 
 HEADER = '''from __future__ import annotations
 import cohdl
-from cohdl import Bit, BitVector, Unsigned, Signed, Port, Signal, Variable, Array, Null, Full, std, enum
+from cohdl import Bit, BitVector, Unsigned, Signed, Port, Signal, Variable, Temporary, Array, Attribute, Null, Full, std, enum
+
+
+class keep(Attribute, type=str): ...
+
+
+class max_fanout(Attribute, type=int): ...
 
 
 class Color(enum.Enum):
@@ -118,6 +124,14 @@ def programs(tier="quick"):
     for cname in ("concurrent", "unclocked"):
         out.append((f"signed-ops|{cname}", entity(CONTEXTS[cname] + ["    self.os <<= (self.sg + 1) if self.sg < 0 else (self.sg - self.sg[1:0].signed)", "    self.q <<= (self.sg >> 1) >= -2", "    self.o <<= (self.us << 1) | (self.a >> 2)",
                                                                      "    self.ob <<= self.sg.bitvector ^ self.bv"])))
+    # --- attributes on signals, variables and temporaries (a temporary is a signal in a concurrent context, a variable in a process)
+    out.append(("attributes|signal-variable-temporaries", entity([
+        "sig = Signal[BitVector[4]]('0011', name='sig', attributes=[keep('yes')])",
+        "@std.concurrent", "def logic():", "    t_conc = Temporary[Unsigned[4]](self.a + 1, attributes=[keep('true'), max_fanout(4)])", "    self.o <<= t_conc + sig.unsigned",
+        "@std.sequential(std.Clock(self.clk))", "def proc():", "    t_seq = Temporary[Unsigned[4]](self.a + 2, attributes=[max_fanout(2)])", "    v = Variable[Unsigned[4]](name='v', attributes=[keep('v')])",
+        "    v @= t_seq", "    sig.next = v", "    self.ob <<= (v + t_seq).bitvector"])))
+    out.append(("attributes|unclocked-process-temporary", entity([
+        "@std.sequential", "def comb():", "    t = Temporary[Unsigned[4]](self.a & self.us, attributes=[keep('x')])", "    self.o <<= t + 1"])))
     # --- local objects and helper functions with early return
     out.append(("locals|signal-alias-and-helper", entity(["def pick(x, y, c):", "    if c:", "        return x + 1", "    return y", "@std.sequential(std.Clock(self.clk), std.Reset(self.reset))", "def p():", "    loc = Signal[Unsigned[4]](self.a + self.us)",
                                                           "    tmp = pick(loc, self.a, self.b)", "    self.o <<= tmp", "    self.q <<= loc[3] | tmp[0]"])))
